@@ -1,18 +1,20 @@
 """Path-sensitive interpretation of lr_guarded::modify / lock_shared (A4).
 
-Each CFG path is executed over a tiny symbolic state: boolean locals hold
-either a literal or (negations of) the value an atomic flag had when it was
-loaded; pointer locals hold the address of a field.  Branches on such values
-split the path per valuation.  The result is, per path, the ordered list of
-protocol events with CONCRETE values under that valuation."""
+Each CFG path is executed over a small symbolic state.  Values of locals:
+  ('lit', b)                      boolean literal
+  ('flag', field, load id, neg)   (negation of) the value an atomic flag had when it was loaded
+  ('ztest', fields, nonzero)      result of comparing atomic counter load(s) with zero
+                                  (nonzero=True: the value is true when some counter is NON-zero)
+  ('addr', field)                 address of a member (write pointers)
+  ('atomref', field)              reference alias of an atomic member (field may be ('param', name) in helpers)
+  ('unknown',)
+Branches on such values split the path per valuation.  The result is, per path, the ordered list of protocol
+events with CONCRETE values under that valuation.  Calls of small private/static helpers of the same class are
+summarised (which counters they wait for / observe zero) and spliced in at the call."""
 from .engine import CALLS, CTORS, atomic_ops, atomic_field_of, callee_fq, path, unwrap
 from .flow import paths, TooManyPaths
 
 LR = "gmlc::libguarded::lr_guarded"
-
-
-class Sym:
-    """value: ('lit', bool) | ('flag', field, load id, negated) | ('addr', field) | ('unknown',)"""
 
 
 def _neg(v):
@@ -20,21 +22,62 @@ def _neg(v):
         return ("lit", not v[1])
     if v[0] == "flag":
         return ("flag", v[1], v[2], not v[3])
+    if v[0] == "ztest":
+        return ("ztest", v[1], not v[2])
     return ("unknown",)
 
 
 class PathRun:
-    def __init__(self, f, p):
+    def __init__(self, f, p, param_env=None, depth=0):
         self.f = f
         self.p = p
-        self.env = {}
+        self.env = dict(param_env or {})
         self.assume = {}       # load id -> bool
         self.events = []
         self.ok = True
-        self.why = ""
+        self.depth = depth
         self.atomic = {op["st"]["id"]: op for op in atomic_ops(f)}
 
     # -------------------------------------------------------------- values
+    def field_of_expr(self, st):
+        """member field designated by an lvalue expression (through reference aliases / ?: on known values)"""
+        f = self.f
+        st = unwrap(f, st)
+        if st is None:
+            return None
+        k = st["k"]
+        if k == "MemberExpr" and st["m"].get("is_field"):
+            b = path(f, f.s(st["base"]))
+            if b == "this":
+                return st["m"]["name"]
+            return None
+        if k == "DeclRefExpr":
+            d = st["d"]
+            key = ("p:" if d.get("k") == "param" else "l:") + d["name"]
+            v = self.env.get("#" + d["id"], self.env.get(key))
+            if v is not None and v[0] == "atomref":
+                return v[1]
+            return None
+        if k == "ConditionalOperator":
+            c = self.concrete(self.value(f.s(st["cond"])))
+            if c is None:
+                return None
+            return self.field_of_expr(f.s(st["then"] if c else st["else"]))
+        if k == "UnaryOperator" and st["op"] == "*":
+            inner = unwrap(f, f.children(st)[0])
+            if inner is not None and inner["k"] == "UnaryOperator" and inner["op"] == "&":
+                return self.field_of_expr(f.children(inner)[0])
+        return None
+
+    def atomic_field(self, op):
+        st = op["st"]
+        o = self.f.s(st["obj"]) if st["k"] == "CXXMemberCallExpr" else self.f.s(st["args"][0])
+        fld = self.field_of_expr(o)      # path-sensitive first (aliases decided on this path)
+        if fld:
+            return fld
+        fld = atomic_field_of(self.f, op)
+        return fld[1] if fld else None
+
     def value(self, st):
         f = self.f
         st = unwrap(f, st)
@@ -46,18 +89,43 @@ class PathRun:
         if k == "UnaryOperator" and st["op"] == "!":
             return _neg(self.value(f.children(st)[0]))
         if k == "UnaryOperator" and st["op"] == "&":
-            p = path(f, f.children(st)[0])
-            if p and p.startswith("this."):
-                return ("addr", p[5:])
+            fld = self.field_of_expr(f.children(st)[0])
+            if fld:
+                return ("addr", fld)
             return ("unknown",)
+        if k == "ConditionalOperator":
+            c = self.concrete(self.value(f.s(st["cond"])))
+            if c is None:
+                return ("unknown",)
+            return self.value(f.s(st["then"] if c else st["else"]))
         if k == "DeclRefExpr":
-            p = path(f, st)
-            return self.env.get(p, ("unknown",))
+            d = st["d"]
+            key = ("p:" if d.get("k") == "param" else "l:") + d["name"]
+            return self.env.get("#" + d["id"], self.env.get(key, ("unknown",)))
+        if k == "BinaryOperator" and st["op"] in ("!=", ">", "==", "<="):
+            l, r = [unwrap(f, x) for x in f.children(st)]
+            if r is not None and r["k"] == "IntegerLiteral" and r["v"] == 0 and l is not None and l["id"] in self.atomic \
+                    and self.atomic[l["id"]]["op"] == "load":
+                fld = self.atomic_field(self.atomic[l["id"]])
+                if fld:
+                    return ("ztest", frozenset([fld]), st["op"] in ("!=", ">"))
+            # comparison of two boolean values: readingLeft == countingLeft
+            if st["op"] in ("==", "!="):
+                a, b = self.concrete(self.value(l)), self.concrete(self.value(r))
+                if a is not None and b is not None:
+                    return ("lit", (a == b) if st["op"] == "==" else (a != b))
+            return ("unknown",)
+        if k == "BinaryOperator" and st["op"] == "||":
+            a, b = [self.value(x) for x in f.children(st)]
+            if a[0] == "ztest" and b[0] == "ztest" and a[2] and b[2]:
+                return ("ztest", a[1] | b[1], True)
+            return ("unknown",)
         if st["id"] in self.atomic:
             op = self.atomic[st["id"]]
-            fld = atomic_field_of(f, op)
-            if op["op"] == "load" and fld:
-                return ("flag", fld[1], st["id"], False)
+            if op["op"] == "load":
+                fld = self.atomic_field(op)
+                if fld:
+                    return ("flag", fld, st["id"], False)
         return ("unknown",)
 
     def concrete(self, v):
@@ -72,28 +140,20 @@ class PathRun:
         return None
 
     def target(self, st):
-        """field a pointer expression designates ('m_left'), or None"""
+        """member a pointer expression designates ('m_left'), or None"""
         f = self.f
         st = unwrap(f, st)
         if st is None:
             return None
         if st["k"] == "UnaryOperator" and st["op"] == "*":
-            inner = unwrap(f, f.children(st)[0])
-            if inner is not None and inner["k"] == "DeclRefExpr":
-                v = self.env.get(path(f, inner), ("unknown",))
-                return v[1] if v[0] == "addr" else None
-            p = path(f, st)
-            return p[5:] if p and p.startswith("this.") else None
-        if st["k"] == "UnaryOperator" and st["op"] == "&":
-            p = path(f, f.children(st)[0])
-            return p[5:] if p and p.startswith("this.") else None
-        p = path(f, st)
-        if p and p.startswith("this."):
-            return p[5:]
-        if st["k"] == "DeclRefExpr":
-            v = self.env.get(path(f, st), ("unknown",))
-            return v[1] if v[0] == "addr" else None
-        return None
+            v = self.value(f.children(st)[0])
+            if v[0] == "addr":
+                return v[1]
+            return self.field_of_expr(st)
+        v = self.value(st)
+        if v[0] == "addr":
+            return v[1]
+        return self.field_of_expr(st)
 
     # --------------------------------------------------------------- steps
     def run(self):
@@ -112,16 +172,23 @@ class PathRun:
         return self
 
     def branch(self, cond, taken, blk):
-        f = self.f
-        cu = unwrap(f, cond)
-        # loop headers on a counter: 'X.load() != 0'
-        z = self.zero_observed(cu, taken)
-        if z:
-            self.events.append(("zero", z, taken, blk.id, None))
-        if blk.term["k"] in ("WhileStmt", "ForStmt", "DoStmt"):
-            self.events.append(("loopcond", self.drained_by_exit(cu), taken, blk.id, None))
+        v = self.value(cond)
+        is_loop = blk.term["k"] in ("WhileStmt", "ForStmt", "DoStmt")
+        if v[0] == "ztest":
+            zero = (not taken) if v[2] else taken
+            if zero:
+                self.events.append(("zero", set(v[1]), taken, blk.id, None))
+            self.events.append(("loopcond", set(v[1]), taken, blk.id, None))
             return True
-        v = self.value(cu)
+        if v[0] == "flag" and "atomic<int>" in self.atomic.get(v[2], {}).get("objtype", ""):
+            # bare counter used as a condition: while (cnt.load()) ...
+            zero = taken if v[3] else (not taken)
+            if zero:
+                self.events.append(("zero", {v[1]}, taken, blk.id, None))
+            self.events.append(("loopcond", {v[1]}, taken, blk.id, None))
+            return True
+        if is_loop:
+            self.events.append(("loopcond", None, taken, blk.id, None))
         if v[0] == "flag":
             want = (not taken) if v[3] else taken
             old = self.assume.get(v[2])
@@ -133,118 +200,50 @@ class PathRun:
             return v[1] == taken
         return True
 
-    def zero_observed(self, cu, taken):
-        """atomic fields whose loaded value is known to be ZERO given that the
-        branch condition cu evaluated to `taken`"""
-        f = self.f
-        cu = unwrap(f, cu)
-        if cu is None:
-            return set()
-        k = cu["k"]
-        if k == "UnaryOperator" and cu["op"] == "!":
-            return self.zero_observed(f.children(cu)[0], not taken)
-        if k == "BinaryOperator" and cu["op"] == "||" and not taken:
-            l, r = f.children(cu)
-            return self.zero_observed(l, False) | self.zero_observed(r, False)
-        if k == "BinaryOperator" and cu["op"] == "&&" and taken:
-            l, r = f.children(cu)
-            return self.zero_observed(l, True) | self.zero_observed(r, True)
-        if k == "BinaryOperator" and cu["op"] in ("!=", ">", "==", "<="):
-            l, r = [unwrap(f, x) for x in f.children(cu)]
-            if r is not None and r["k"] == "IntegerLiteral" and r["v"] == 0 and l is not None and \
-                    l["id"] in self.atomic and self.atomic[l["id"]]["op"] == "load":
-                fld = atomic_field_of(f, self.atomic[l["id"]])
-                zero_when = cu["op"] in ("==", "<=")
-                if fld and taken == zero_when:
-                    return {fld[1]}
-            return set()
-        if cu["id"] in self.atomic and self.atomic[cu["id"]]["op"] == "load" and not taken:
-            fld = atomic_field_of(f, self.atomic[cu["id"]])
-            t = self.atomic[cu["id"]]["objtype"]
-            if fld and "atomic<int>" in t:
-                return {fld[1]}
-        return set()
-
-    def drained_by_exit(self, cu):
-        """set of atomic fields that are known to have been observed ZERO when
-        the loop condition evaluates to false: cond is 'c.load() != 0' (or > 0,
-        or the bare load), or a disjunction of such terms.  None if the
-        condition has another shape."""
-        f = self.f
-        cu = unwrap(f, cu)
-        if cu is None:
-            return None
-        if cu["k"] == "BinaryOperator" and cu["op"] == "||":
-            l, r = f.children(cu)
-            a, b = self.drained_by_exit(l), self.drained_by_exit(r)
-            if a is None or b is None:
-                return None
-            return a | b
-        if cu["k"] == "BinaryOperator" and cu["op"] in ("!=", ">"):
-            l, r = [unwrap(f, x) for x in f.children(cu)]
-            if r is not None and r["k"] == "IntegerLiteral" and r["v"] == 0 and l is not None and l["id"] in self.atomic:
-                fld = atomic_field_of(f, self.atomic[l["id"]])
-                return {fld[1]} if fld else None
-            return None
-        if cu["id"] in self.atomic and self.atomic[cu["id"]]["op"] == "load":
-            fld = atomic_field_of(f, self.atomic[cu["id"]])
-            return {fld[1]} if fld else None
-        return None
-
-    def _counter_of(self, cu):
-        f = self.f
-        for d in f.descendants(cu):
-            if d["id"] in self.atomic:
-                fld = atomic_field_of(f, self.atomic[d["id"]])
-                if fld:
-                    return fld[1]
-        return None
-
-    def _exit_shape(self, cu):
-        """does the loop continue exactly while the counter is non-zero?"""
-        f = self.f
-        if cu is None:
-            return "?"
-        if cu["k"] == "BinaryOperator" and cu["op"] in ("!=", ">"):
-            l, r = [unwrap(f, x) for x in f.children(cu)]
-            if r is not None and r["k"] == "IntegerLiteral" and r["v"] == 0 and l is not None and l["id"] in self.atomic:
-                return "nonzero"
-        if cu["id"] in self.atomic:
-            return "nonzero"
-        return "other"
-
     def step(self, st, pos):
         f = self.f
         k = st["k"]
         if k == "DeclStmt":
             for d in st["decls"]:
-                if d.get("init"):
-                    self.env["l:" + d["name"]] = self.value(f.s(d["init"]))
+                if not d.get("init"):
+                    continue
+                init = f.s(d["init"])
+                if d.get("ref"):
+                    fld = self.field_of_expr(init)
+                    v = ("atomref", fld) if fld else ("unknown",)
+                else:
+                    v = self.value(init)
+                self.env["l:" + d["name"]] = v
+                self.env["#" + d["id"]] = v
         elif k == "BinaryOperator" and st["op"] == "=":
             l, r = f.children(st)
-            lp = path(f, l)
-            if lp and lp.startswith("l:"):
-                self.env[lp] = self.value(r)
+            lu = unwrap(f, l)
+            if lu is not None and lu["k"] == "DeclRefExpr" and lu["d"].get("k") == "local":
+                v = self.value(r)
+                self.env["l:" + lu["d"]["name"]] = v
+                self.env["#" + lu["d"]["id"]] = v
         elif st["id"] in self.atomic:
             op = self.atomic[st["id"]]
-            fld = atomic_field_of(f, op)
+            fld = self.atomic_field(op)
             if fld is None:
                 self.events.append(("unknown-atomic", op["name"], None, pos, st))
                 return
             if op["op"] == "load":
-                self.events.append(("load", fld[1], st["id"], pos, st))
+                self.events.append(("load", fld, st["id"], pos, st))
             elif op["op"] == "store":
                 v = self.value(op["value"]) if op["value"] is not None else ("unknown",)
-                self.events.append(("store", fld[1], v, pos, st))
+                self.events.append(("store", fld, v, pos, st))
             elif op["op"] in ("rmw", "cas"):
-                self.events.append(("rmw", fld[1], op["name"], pos, st))
+                self.events.append(("rmw", fld, op["name"], pos, st))
         elif k == "CXXOperatorCallExpr" and st.get("op") == "()":
-            # application of the user functor
             args = [f.s(a) for a in st["args"]]
             if len(args) >= 2:
                 self.events.append(("apply", self.target(args[1]), None, pos, st))
         elif k == "CallExpr" and callee_fq(st) == "std::this_thread::yield":
             self.events.append(("yield", None, None, pos, st))
+        elif k in ("CallExpr", "CXXMemberCallExpr") and (st.get("callee") or {}).get("inrepo") and \
+                (st.get("callee") or {}).get("rec") == f.rec and f.rec:
+            self.helper_call(st, pos)
         elif k in CTORS and st.get("t", "").startswith("std::unique_ptr<const ") and len(st["args"]) == 2:
             # shared_handle(&m_left, shared_deleter(counter))
             ptr = self.target(f.s(st["args"][0]))
@@ -252,12 +251,92 @@ class PathRun:
             d = unwrap(f, f.s(st["args"][1]))
             while d is not None and d["k"] in CTORS and len(d["args"]) == 1:
                 a0 = f.s(d["args"][0])
-                p = path(f, a0)
-                if p and p.startswith("this."):
-                    cnt = p[5:]
+                fld = self.field_of_expr(a0)
+                if fld:
+                    cnt = fld
                     break
                 d = unwrap(f, a0)
             self.events.append(("handle", ptr, cnt, pos, st))
+
+    # ------------------------------------------------------------- helpers
+    def helper_call(self, st, pos):
+        """a call of a small helper of the same class: splice in what it waits for"""
+        f = self.f
+        g = f.unit.fn_by_id.get(st["callee"]["id"])
+        if g is None or g is f or self.depth >= 2 or g.name in ("lock_shared", "modify"):
+            return
+        summ = helper_summary(g, self.depth + 1)
+        if summ is None:
+            self.events.append(("unknown-helper", g.name, None, pos, st))
+            return
+        mapping = {}
+        for pd, a in zip(g.params, st["args"]):
+            mapping[("param", pd["name"])] = self.field_of_expr(f.s(a))
+
+        def tr(fields):
+            out = set()
+            for x in fields:
+                if isinstance(x, tuple):
+                    y = mapping.get(x)
+                    if y is None:
+                        return None
+                    out.add(y)
+                else:
+                    out.add(x)
+            return out
+        mz, waited = tr(summ["must_zero"]), tr(summ["waited"])
+        if mz is None or waited is None:
+            self.events.append(("unknown-helper", g.name, None, pos, st))
+            return
+        if waited:
+            self.events.append(("loopcond", waited, True, ("helper", g.id), None))
+        if mz:
+            self.events.append(("zero", mz, False, ("helper", g.id), None))
+        if summ["yields"]:
+            self.events.append(("yield", None, None, pos, st))
+
+
+_HELPER = {}
+
+
+def helper_summary(g, depth=1):
+    """what a helper does in terms of the protocol: counters it must have observed zero when it returns
+    (on every path), counters it waits on; None if it does anything else (stores, applications, unknown atomics)"""
+    key = (g.unit.path, g.id)
+    if key in _HELPER:
+        return _HELPER[key]
+    _HELPER[key] = None
+    env = {}
+    for pd in g.params:
+        if "std::atomic<" in pd.get("type", "") and pd.get("ref"):
+            env["p:" + pd["name"]] = ("atomref", ("param", pd["name"]))
+    try:
+        ps = paths(g)
+    except TooManyPaths:
+        return None
+    must = None
+    waited = set()
+    yields = False
+    for p in ps:
+        if p[-1][0] != g.exit:
+            continue
+        r = PathRun(g, p, env, depth).run()
+        if not r.ok:
+            continue
+        z = set()
+        for e in r.events:
+            if e[0] in ("store", "rmw", "apply", "handle", "unknown-atomic", "unknown-helper"):
+                return None
+            if e[0] == "zero":
+                z |= set(e[1])
+            if e[0] == "loopcond" and e[1]:
+                waited |= set(e[1])
+            if e[0] == "yield":
+                yields = True
+        must = z if must is None else (must & z)
+    res = dict(must_zero=must or set(), waited=waited, yields=yields)
+    _HELPER[key] = res
+    return res
 
 
 def run_paths(f, unroll=None):
